@@ -38,6 +38,7 @@ class NetNode:
         self.lazy_ns = 0  # application reads its queue at most this often
         self.last_drain = 0
         self.sys_returns = []
+        self.peek_bad = []  # (peeked, read) pairs that differ
 
     @property
     def addr(self):
@@ -143,10 +144,18 @@ class Net:
                 return
         nn.last_drain = nn.wnode.t
         while obj.available():
+            pk = None
+            if hasattr(obj, "peek") and len(nn.applog) % 3 == 0:
+                # the application looks before it takes: peek() must show what read() then returns
+                p = obj.peek()
+                pk = None if p is None else (p.header.from_node, p.header.to_node, p.header.frame_id,
+                                             p.header.message_type, bytes(p.message))
             f = obj.read()
-            nn.applog.append({"t": nn.wnode.t, "from": f.header.from_node, "to": f.header.to_node,
-                              "id": f.header.frame_id, "type": f.header.message_type,
-                              "msg": bytes(f.message)})
+            e = {"t": nn.wnode.t, "from": f.header.from_node, "to": f.header.to_node,
+                 "id": f.header.frame_id, "type": f.header.message_type, "msg": bytes(f.message)}
+            if pk is not None and pk != (e["from"], e["to"], e["id"], e["type"], e["msg"]):
+                nn.peek_bad.append((pk, e))
+            nn.applog.append(e)
 
     def pump_idle(self, nn):
         """application poll; when the radio holds nothing, 7 of 8 polls are charged their
